@@ -86,7 +86,7 @@ class SplitIter(Model):
         self.s, self.sep, self.pos, self.finished = as_symstr(s), sep, 0, False
 
 
-@model(r'core::str::<impl str>::split::<char>')
+@model(r'(?:core|std|alloc)::str::<impl str>::split::<char>')
 def str_split_char(ex, m, a, fr, dest):
     return SplitIter(deref(a[0]), a[1])
 
@@ -120,7 +120,7 @@ def split_next(ex, m, a, fr, dest):
     return some(str_simplify(part))
 
 
-@model(r'core::str::<impl str>::(len)|std::string::String::(len)|String::(len)')
+@model(r'(?:core|std|alloc)::str::<impl str>::(len)|std::string::String::(len)|String::(len)')
 def str_len(ex, m, a, fr, dest):
     s = deref(a[0])
     if isinstance(s, str):
@@ -128,7 +128,7 @@ def str_len(ex, m, a, fr, dest):
     return s.blen()
 
 
-@model(r'core::str::<impl str>::is_empty|(?:std::string::)?String::is_empty')
+@model(r'(?:core|std|alloc)::str::<impl str>::is_empty|(?:std::string::)?String::is_empty')
 def str_is_empty(ex, m, a, fr, dest):
     s = deref(a[0])
     if isinstance(s, str):
@@ -136,7 +136,7 @@ def str_is_empty(ex, m, a, fr, dest):
     return eq(s.n, 0)
 
 
-@model(r'core::str::<impl str>::starts_with::<char>')
+@model(r'(?:core|std|alloc)::str::<impl str>::starts_with::<char>')
 def str_starts_with_char(ex, m, a, fr, dest):
     s = as_symstr(deref(a[0]))
     if not s.chars:
@@ -144,7 +144,7 @@ def str_starts_with_char(ex, m, a, fr, dest):
     return b_and(b_lt(0, s.n), eq(s.chars[0], a[1]))
 
 
-@model(r'core::str::<impl str>::ends_with::<char>')
+@model(r'(?:core|std|alloc)::str::<impl str>::ends_with::<char>')
 def str_ends_with_char(ex, m, a, fr, dest):
     s = deref(a[0])
     if isinstance(s, str):
@@ -152,18 +152,18 @@ def str_ends_with_char(ex, m, a, fr, dest):
     return b_and(b_lt(0, s.n), eq(s.elem(zint(s.n) - 1), a[1]))
 
 
-@model(r'core::str::<impl str>::contains::<char>')
+@model(r'(?:core|std|alloc)::str::<impl str>::contains::<char>')
 def str_contains_char(ex, m, a, fr, dest):
     s = as_symstr(deref(a[0]))
     return b_or(*[b_and(b_lt(i, s.n), eq(s.chars[i], a[1])) for i in range(len(s.chars))])
 
 
-@model(r'core::str::<impl str>::starts_with::<&(?:std::string::)?String>|core::str::<impl str>::starts_with::<&str>')
+@model(r'(?:core|std|alloc)::str::<impl str>::starts_with::<&(?:std::string::)?String>|(?:core|std|alloc)::str::<impl str>::starts_with::<&str>')
 def str_starts_with_str(ex, m, a, fr, dest):
     return str_starts_with(deref(a[0]), deref(a[1]))
 
 
-@model(r'core::str::<impl str>::ends_with::<&str>')
+@model(r'(?:core|std|alloc)::str::<impl str>::ends_with::<&str>')
 def str_ends_with_str(ex, m, a, fr, dest):
     x, y = deref(a[0]), deref(a[1])
     if isinstance(x, str) and isinstance(y, str):
@@ -218,7 +218,7 @@ class CharsIter(Model):
         self.s, self.pos = as_symstr(s), 0
 
 
-@model(r'core::str::<impl str>::chars')
+@model(r'(?:core|std|alloc)::str::<impl str>::chars')
 def str_chars(ex, m, a, fr, dest):
     return CharsIter(deref(a[0]))
 
@@ -257,7 +257,7 @@ def opt_char_eq(ex, m, a, fr, dest):
     return eq(x.fields[0], y.fields[0])
 
 
-@model(r'<(?:std::string::)?String as Clone>::clone|<str as ToOwned>::to_owned|<str as ToString>::to_string|<(?:std::string::)?String as (?:std::ops::)?Deref>::deref|<(?:std::string::)?String as From<&str>>::from|<(?:std::string::)?String as ToString>::to_string|(?:std::string::)?String::as_str|<(?:std::string::)?String as AsRef<str>>::as_ref|<str as AsRef<str>>::as_ref|<(?:std::string::)?String as Borrow<str>>::borrow|(?:std::string::)?String::into_boxed_str|<(?:std::string::)?String as From<(?:std::string::)?String>>::from|<(?:std::string::)?String as Into<(?:std::string::)?String>>::into|<&str as Into<(?:std::string::)?String>>::into|<(?:std::string::)?String as (?:std::ops::)?DerefMut>::deref_mut|core::str::<impl str>::to_string|core::str::<impl str>::to_owned|<&str as ToString>::to_string|<std::string::String as From<&std::string::String>>::from')
+@model(r'<(?:std::string::)?String as Clone>::clone|<str as ToOwned>::to_owned|<str as ToString>::to_string|<(?:std::string::)?String as (?:std::ops::)?Deref>::deref|<(?:std::string::)?String as From<&str>>::from|<(?:std::string::)?String as ToString>::to_string|(?:std::string::)?String::as_str|<(?:std::string::)?String as AsRef<str>>::as_ref|<str as AsRef<str>>::as_ref|<(?:std::string::)?String as Borrow<str>>::borrow|(?:std::string::)?String::into_boxed_str|<(?:std::string::)?String as From<(?:std::string::)?String>>::from|<(?:std::string::)?String as Into<(?:std::string::)?String>>::into|<&str as Into<(?:std::string::)?String>>::into|<(?:std::string::)?String as (?:std::ops::)?DerefMut>::deref_mut|(?:core|std|alloc)::str::<impl str>::to_string|(?:core|std|alloc)::str::<impl str>::to_owned|<&str as ToString>::to_string|<std::string::String as From<&std::string::String>>::from')
 def str_identity(ex, m, a, fr, dest):
     return deref(a[0])
 
@@ -286,7 +286,7 @@ def string_push_str(ex, m, a, fr, dest):
     return UNIT
 
 
-@model(r'core::str::<impl str>::as_bytes|(?:std::string::)?String::as_bytes|(?:std::string::)?String::into_bytes')
+@model(r'(?:core|std|alloc)::str::<impl str>::as_bytes|(?:std::string::)?String::as_bytes|(?:std::string::)?String::into_bytes')
 def str_as_bytes(ex, m, a, fr, dest):
     s = deref(a[0])
     return StrBytes(as_symstr(s))
@@ -312,7 +312,7 @@ class StrBytes(Model):
         return sv.as_long() if z3.is_int_value(sv) else v
 
 
-@model(r'core::str::<impl str>::strip_prefix::<char>')
+@model(r'(?:core|std|alloc)::str::<impl str>::strip_prefix::<char>')
 def str_strip_prefix_char(ex, m, a, fr, dest):
     s = deref(a[0])
     c = a[1]
@@ -324,7 +324,7 @@ def str_strip_prefix_char(ex, m, a, fr, dest):
     return none()
 
 
-@model(r'core::str::<impl str>::parse::<(.*)>')
+@model(r'(?:core|std|alloc)::str::<impl str>::parse::<(.*)>')
 def str_parse(ex, m, a, fr, dest):
     ty = m.group(1)
     s = deref(a[0])
@@ -833,13 +833,13 @@ def vec_new(ex, m, a, fr, dest):
     return VecV([], 'VecDeque' if 'VecDeque' in m.group(0) else 'Vec')
 
 
-@model(r'(?:std::vec::)?Vec::<.*>::(len)|core::slice::<impl \[.*\]>::(len)|(?:std::collections::)?VecDeque::<.*>::(len)')
+@model(r'(?:std::vec::)?Vec::<.*>::(len)|(?:core|std|alloc)::slice::<impl \[.*\]>::(len)|(?:std::collections::)?VecDeque::<.*>::(len)')
 def vec_len(ex, m, a, fr, dest):
     items, lo, hi = seq_items(deref(a[0]))
     return hi - lo
 
 
-@model(r'(?:std::vec::)?Vec::<.*>::is_empty|core::slice::<impl \[.*\]>::is_empty|(?:std::collections::)?VecDeque::<.*>::is_empty')
+@model(r'(?:std::vec::)?Vec::<.*>::is_empty|(?:core|std|alloc)::slice::<impl \[.*\]>::is_empty|(?:std::collections::)?VecDeque::<.*>::is_empty')
 def vec_is_empty(ex, m, a, fr, dest):
     items, lo, hi = seq_items(deref(a[0]))
     return hi == lo
@@ -923,7 +923,7 @@ def slice_index_from(ex, m, a, fr, dest):
     return Slice(items, lo + i, hi)
 
 
-@model(r'core::slice::<impl \[.*\]>::(first|last)|(?:std::vec::)?Vec::<.*>::(first|last)|(?:std::collections::)?VecDeque::<.*>::(front|back)')
+@model(r'(?:core|std|alloc)::slice::<impl \[.*\]>::(first|last)|(?:std::vec::)?Vec::<.*>::(first|last)|(?:std::collections::)?VecDeque::<.*>::(front|back)')
 def slice_first_last(ex, m, a, fr, dest):
     items, lo, hi = seq_items(deref(a[0]))
     if hi == lo:
@@ -933,7 +933,7 @@ def slice_first_last(ex, m, a, fr, dest):
     return some(Ref(items, idx))
 
 
-@model(r'core::slice::<impl \[.*\]>::iter|core::slice::<impl \[.*\]>::iter_mut|(?:std::vec::)?Vec::<.*>::iter|(?:std::collections::)?VecDeque::<.*>::iter|<&(?:mut )?(?:std::vec::)?Vec<.*> as IntoIterator>::into_iter|<&(?:mut )?\[.*\] as IntoIterator>::into_iter')
+@model(r'(?:core|std|alloc)::slice::<impl \[.*\]>::iter|(?:core|std|alloc)::slice::<impl \[.*\]>::iter_mut|(?:std::vec::)?Vec::<.*>::iter|(?:std::collections::)?VecDeque::<.*>::iter|<&(?:mut )?(?:std::vec::)?Vec<.*> as IntoIterator>::into_iter|<&(?:mut )?\[.*\] as IntoIterator>::into_iter')
 def slice_iter(ex, m, a, fr, dest):
     items, lo, hi = seq_items(deref(a[0]))
     return PyIter((Ref(items, i, True) for i in range(lo, hi)), hi - lo)
@@ -1215,7 +1215,7 @@ def vec_extend(ex, m, a, fr, dest):
     return UNIT
 
 
-@model(r'<(?:std::vec::)?Vec<.*> as Clone>::clone|core::slice::<impl \[.*\]>::to_vec|<(?:std::vec::)?Vec<.*> as From<&\[.*\]>>::from|<\[.*\] as ToOwned>::to_owned')
+@model(r'<(?:std::vec::)?Vec<.*> as Clone>::clone|(?:core|std|alloc)::slice::<impl \[.*\]>::to_vec|<(?:std::vec::)?Vec<.*> as From<&\[.*\]>>::from|<\[.*\] as ToOwned>::to_owned')
 def vec_clone(ex, m, a, fr, dest):
     v = deref(a[0])
     if not isinstance(v, (VecV, Slice)):
@@ -1235,7 +1235,7 @@ def vec_retain(ex, m, a, fr, dest):
     return UNIT
 
 
-@model(r'core::slice::<impl \[.*\]>::contains|(?:std::vec::)?Vec::<.*>::contains')
+@model(r'(?:core|std|alloc)::slice::<impl \[.*\]>::contains|(?:std::vec::)?Vec::<.*>::contains')
 def slice_contains(ex, m, a, fr, dest):
     items, lo, hi = seq_items(deref(a[0]))
     x = deref(a[1])
@@ -1284,7 +1284,7 @@ def sort_values(ex, items, cmp):
     return out
 
 
-@model(r'core::slice::<impl \[.*\]>::sort_unstable_by::<.*>|core::slice::<impl \[.*\]>::sort_by::<.*>')
+@model(r'(?:core|std|alloc)::slice::<impl \[.*\]>::sort_unstable_by::<.*>|(?:core|std|alloc)::slice::<impl \[.*\]>::sort_by::<.*>')
 def slice_sort_by(ex, m, a, fr, dest):
     s = a[0]
     items, lo, hi = seq_items(s)
@@ -1299,14 +1299,14 @@ def slice_sort_by(ex, m, a, fr, dest):
     return UNIT
 
 
-@model(r'core::slice::<impl \[.*\]>::sort_unstable|core::slice::<impl \[.*\]>::sort')
+@model(r'(?:core|std|alloc)::slice::<impl \[.*\]>::sort_unstable|(?:core|std|alloc)::slice::<impl \[.*\]>::sort')
 def slice_sort(ex, m, a, fr, dest):
     items, lo, hi = seq_items(a[0])
     items[lo:hi] = sort_values(ex, items[lo:hi], lambda x, y: generic_cmp(ex, x, y, fr))
     return UNIT
 
 
-@model(r'core::slice::<impl \[.*\]>::binary_search_by_key::<.*>')
+@model(r'(?:core|std|alloc)::slice::<impl \[.*\]>::binary_search_by_key::<.*>')
 def slice_binary_search_by_key(ex, m, a, fr, dest):
     # the real algorithm (core::slice::binary_search_by), so that unsorted input behaves as in Rust
     items, lo0, hi0 = seq_items(deref(a[0]))
@@ -1808,7 +1808,7 @@ def _split_once(ex, s, sep, from_right, what):
     return idxs[i]
 
 
-@model(r'core::str::<impl str>::(rsplit_once|split_once)::<char>')
+@model(r'(?:core|std|alloc)::str::<impl str>::(rsplit_once|split_once)::<char>')
 def str_split_once(ex, m, a, fr, dest):
     s = as_symstr(deref(a[0]))
     j = _split_once(ex, s, a[1], m.group(1) == 'rsplit_once', m.group(1))
@@ -1819,7 +1819,7 @@ def str_split_once(ex, m, a, fr, dest):
     return some(Agg('tuple', None, [str_simplify(left), str_simplify(right)]))
 
 
-@model(r'core::str::<impl str>::(rfind|find)::<char>')
+@model(r'(?:core|std|alloc)::str::<impl str>::(rfind|find)::<char>')
 def str_find_char(ex, m, a, fr, dest):
     s = as_symstr(deref(a[0]))
     j = _split_once(ex, s, a[1], m.group(1) == 'rfind', m.group(1))
@@ -1828,7 +1828,7 @@ def str_find_char(ex, m, a, fr, dest):
     return some(SymStr(s.chars[:j], j).blen())
 
 
-@model(r'core::str::<impl str>::(strip_suffix)::<char>')
+@model(r'(?:core|std|alloc)::str::<impl str>::(strip_suffix)::<char>')
 def str_strip_suffix_char(ex, m, a, fr, dest):
     s = as_symstr(deref(a[0]))
     L = len(s.chars)
@@ -1840,7 +1840,7 @@ def str_strip_suffix_char(ex, m, a, fr, dest):
     return some(str_simplify(SymStr(s.chars[:i], i)))
 
 
-@model(r'core::str::<impl str>::strip_prefix::<&str>|core::str::<impl str>::strip_prefix::<&(?:std::string::)?String>')
+@model(r'(?:core|std|alloc)::str::<impl str>::strip_prefix::<&str>|(?:core|std|alloc)::str::<impl str>::strip_prefix::<&(?:std::string::)?String>')
 def str_strip_prefix_str(ex, m, a, fr, dest):
     s, p = deref(a[0]), deref(a[1])
     if isinstance(s, str) and isinstance(p, str):
@@ -1888,7 +1888,7 @@ def ordering_then(ex, m, a, fr, dest):
     return ordering(ite(eq(v, 0), w, v))
 
 
-@model(r'core::slice::<impl \[.*\]>::sort_by_cached_key::<.*>|core::slice::<impl \[.*\]>::sort_by_key::<.*>|core::slice::<impl \[.*\]>::sort_unstable_by_key::<.*>')
+@model(r'(?:core|std|alloc)::slice::<impl \[.*\]>::sort_by_cached_key::<.*>|(?:core|std|alloc)::slice::<impl \[.*\]>::sort_by_key::<.*>|(?:core|std|alloc)::slice::<impl \[.*\]>::sort_unstable_by_key::<.*>')
 def slice_sort_by_key(ex, m, a, fr, dest):
     items, lo, hi = seq_items(a[0])
     f = a[1]
@@ -1923,7 +1923,7 @@ def opt_pair_default(ex, m, a, fr, dest):
     return o.fields[0] if o.variant == 1 else Agg('tuple', None, ['', ''])
 
 
-@model(r'core::str::<impl str>::bytes|core::str::<impl str>::char_indices')
+@model(r'(?:core|std|alloc)::str::<impl str>::bytes|(?:core|std|alloc)::str::<impl str>::char_indices')
 def str_bytes_iter(ex, m, a, fr, dest):
     s = deref(a[0])
     if not isinstance(s, str):
@@ -1937,7 +1937,7 @@ def str_bytes_iter(ex, m, a, fr, dest):
     return PyIter(iter(out), len(out))
 
 
-@model(r'core::str::<impl str>::eq_ignore_ascii_case')
+@model(r'(?:core|std|alloc)::str::<impl str>::eq_ignore_ascii_case')
 def str_eq_ignore_case(ex, m, a, fr, dest):
     x, y = deref(a[0]), deref(a[1])
     if isinstance(x, str) and isinstance(y, str):
@@ -2251,7 +2251,7 @@ def vec_insert_remove(ex, m, a, fr, dest):
     return x
 
 
-@model(r'(?:std::vec::)?Vec::<.*>::(dedup|reverse)|core::slice::<impl \[.*\]>::reverse')
+@model(r'(?:std::vec::)?Vec::<.*>::(dedup|reverse)|(?:core|std|alloc)::slice::<impl \[.*\]>::reverse')
 def vec_reverse(ex, m, a, fr, dest):
     items, lo, hi = seq_items(deref(a[0]))
     if 'reverse' in m.group(0):
@@ -2266,7 +2266,7 @@ def vec_reverse(ex, m, a, fr, dest):
     return UNIT
 
 
-@model(r'core::slice::<impl \[.*\]>::(get|get_mut)::<usize>|(?:std::vec::)?Vec::<.*>::(get|get_mut)::<usize>')
+@model(r'(?:core|std|alloc)::slice::<impl \[.*\]>::(get|get_mut)::<usize>|(?:std::vec::)?Vec::<.*>::(get|get_mut)::<usize>')
 def slice_get(ex, m, a, fr, dest):
     items, lo, hi = seq_items(deref(a[0]))
     i = ex.concretize(a[1], 0, hi - lo + 1, 'get') if not is_sym(a[1]) or True else a[1]
@@ -2275,7 +2275,7 @@ def slice_get(ex, m, a, fr, dest):
     return none()
 
 
-@model(r'core::slice::<impl \[.*\]>::binary_search_by::<.*>')
+@model(r'(?:core|std|alloc)::slice::<impl \[.*\]>::binary_search_by::<.*>')
 def slice_binary_search_by(ex, m, a, fr, dest):
     items, lo0, hi0 = seq_items(deref(a[0]))
     f = a[1]
@@ -2298,7 +2298,7 @@ def slice_binary_search_by(ex, m, a, fr, dest):
     return err(base + (1 if c < 0 else 0))
 
 
-@model(r'core::slice::<impl \[.*\]>::partition_point::<.*>')
+@model(r'(?:core|std|alloc)::slice::<impl \[.*\]>::partition_point::<.*>')
 def slice_partition_point(ex, m, a, fr, dest):
     items, lo0, hi0 = seq_items(deref(a[0]))
     n = 0
@@ -2404,10 +2404,91 @@ def box_into_vec(ex, m, a, fr, dest):
     return VecV(list(arr.items))
 
 
-@model(r'(?:alloc::slice::|std::slice::)?<impl \[.*\]>::into_vec::<.*>|core::slice::<impl \[.*\]>::into_vec')
+@model(r'(?:alloc::slice::|std::slice::)?<impl \[.*\]>::into_vec::<.*>|(?:core|std|alloc)::slice::<impl \[.*\]>::into_vec')
 def slice_into_vec(ex, m, a, fr, dest):
     b = deref(a[0])
     if isinstance(b, Agg) and b.fields:
         b = deref(b.fields[0])
     items, lo, hi = seq_items(b)
     return VecV(list(items[lo:hi]))
+
+
+# ============================================================================ Path / PathBuf as strings
+class PathV(Model):
+    """std::path::PathBuf / &Path: a '/'-separated string (possibly symbolic)."""
+    ty = 'PathBuf'
+    unsized = True
+
+    def __init__(self, s):
+        self.s = s
+
+    def clone_model(self):
+        return self
+
+    def eq_model(self, ex, other):
+        other = deref(other)
+        return str_eq(self.s, other.s if isinstance(other, PathV) else other)
+
+    def display(self, ex):
+        return self.s
+
+    def __repr__(self):
+        return 'Path(%r)' % (self.s,)
+
+
+def path_str(v):
+    v = deref(v)
+    if isinstance(v, PathV):
+        return v.s
+    if isinstance(v, (str, SymStr)):
+        return v
+    if isinstance(v, Agg) and v.fields and isinstance(deref(v.fields[0]), (str, SymStr)):
+        return deref(v.fields[0])          # e.g. Apath as AsRef<Path>
+    raise Unsupported('not a path: %r' % (v,))
+
+
+@model(r'<(?:std::path::)?PathBuf as From<.*>>::from|(?:std::path::)?Path::new::<.*>|(?:std::path::)?Path::to_path_buf|(?:std::path::)?Path::to_owned|<(?:std::path::)?Path as ToOwned>::to_owned|<(?:std::path::)?PathBuf as (?:std::ops::)?Deref>::deref|(?:std::path::)?PathBuf::as_path|<.* as AsRef<(?:std::path::)?Path>>::as_ref|<.* as Into<(?:std::path::)?PathBuf>>::into|<(?:std::path::)?PathBuf as Clone>::clone|(?:std::path::)?PathBuf::from|<(?:std::path::)?Path as AsRef<(?:std::ffi::)?OsStr>>::as_ref|(?:std::path::)?Path::as_os_str|<(?:std::path::)?PathBuf as Borrow<(?:std::path::)?Path>>::borrow|<&(?:std::path::)?Path as Into<(?:std::path::)?PathBuf>>::into')
+def path_identity(ex, m, a, fr, dest):
+    return PathV(path_str(a[0]))
+
+
+@model(r'(?:std::path::)?Path::join::<.*>')
+def path_join(ex, m, a, fr, dest):
+    base, rel = path_str(a[0]), path_str(a[1])
+    rs = as_symstr(rel)
+    # Path::join replaces the base when the argument is absolute
+    if rs.chars and ex.branch(b_and(b_lt(0, rs.n), eq(rs.chars[0], 47)), 'join absolute?'):
+        return PathV(rel)
+    if ex.branch(eq(rs.n, 0), 'join empty?'):
+        return PathV(base)
+    bs = as_symstr(base)
+    ends = b_and(b_lt(0, bs.n), eq(bs.elem(zint(bs.n) - 1), 47))
+    if ex.branch(ends, 'base ends with /'):
+        return PathV(str_simplify(str_concat(base, rel)))
+    return PathV(str_simplify(str_concat(str_concat(base, '/'), rel)))
+
+
+@model(r'(?:std::path::)?PathBuf::push::<.*>')
+def path_push(ex, m, a, fr, dest):
+    r = a[0]
+    cur = r.get()
+    r.set(path_join(ex, m, [cur, a[1]], fr, dest))
+    return UNIT
+
+
+@model(r'(?:std::path::)?Path::to_string_lossy|(?:std::path::)?Path::display|(?:std::path::)?Path::to_str')
+def path_to_string(ex, m, a, fr, dest):
+    s = path_str(a[0])
+    if m.group(0).endswith('to_str'):
+        return some(s)
+    if m.group(0).endswith('to_string_lossy'):
+        return Agg('Cow', 0, [s], 'Borrowed')
+    return PathV(s)
+
+
+@model(r'(?:std::borrow::)?Cow::<.*>::into_owned|<(?:std::borrow::)?Cow<.*> as (?:std::ops::)?Deref>::deref|<(?:std::borrow::)?Cow<.*> as AsRef<.*>>::as_ref|<(?:std::borrow::)?Cow<.*> as ToString>::to_string')
+def cow_into_owned(ex, m, a, fr, dest):
+    c = deref(a[0])
+    if isinstance(c, Agg) and last_seg(c.ty) == 'Cow':
+        return deref(c.fields[0])
+    return c
